@@ -32,13 +32,21 @@ def prove(ctx: Ctx, module: str, theorems: list[str], timeout: int = 1500) -> di
             raise MachineryError(f"{src}: theorem {th} not found")
     work = Path(tempfile.mkdtemp(prefix="verif_tlaps_", dir=str(ctx.tmp)))
     try:
-        shutil.copy(src, work / src.name)
-        # the specification modules the proof extends (TLAPS has no TLC / community modules: the proof modules only
-        # extend specifications that do not need them)
-        for m in re.findall(r"^EXTENDS\s+(.*)$", text, re.M)[0].split(","):
-            m = m.strip()
-            if (SPEC / f"{m}.tla").exists():
-                shutil.copy(SPEC / f"{m}.tla", work / f"{m}.tla")
+        # the proof module and, transitively, the proof / specification modules it extends (TLAPS has no TLC /
+        # community modules: the proof modules only extend specifications that do not need them)
+        todo = [src]
+        while todo:
+            f = todo.pop()
+            if (work / f.name).exists():
+                continue
+            shutil.copy(f, work / f.name)
+            ext = re.findall(r"^EXTENDS\s+(.*)$", f.read_text(), re.M)
+            for m in (ext[0].split(",") if ext else []):
+                m = m.strip()
+                for d in (PROOFS, SPEC):
+                    if (d / f"{m}.tla").exists():
+                        todo.append(d / f"{m}.tla")
+                        break
         t0 = time.time()
         p = subprocess.run(["tlapm", "--cleanfp", "-I", str(STDLIB), src.name], cwd=work, capture_output=True,
                            text=True, timeout=timeout)
